@@ -133,7 +133,7 @@ def clientCase (hdr : String) (lines : List String) : List String :=
           let (out, seen) := acc
           if x.2.startsWith "sn " then
             let key := match parseHex (x.2.drop 3).toString with
-              | some b => hexOf (Spec.clearDup b)
+              | some b => hexOf (Spec.ClientSpec.noDup b)
               | none => x.2
             let late := match tCancel with | some tc => x.1 > tc | none => false
             if late && seen.contains key then (out, seen) else (out ++ [x], key :: seen)
